@@ -180,6 +180,11 @@ def opEdit : J.Op := fun j => do
       | .error e => raised := .str (errStr e)
     | "group" => m := m.group
     | "ungroup" => m := m.ungroup
+    | "sort" =>
+      -- `keys` absent: the default keys; present: the key arrays as handed to `sort(keys)` (last key primary)
+      match ← J.fieldOpt o "keys" (J.list (J.list J.rat)) with
+      | none => m := m.sort
+      | some keys => m := m.sortKeys keys
     | "reorder" => m := m.reorder (← J.field o "idx" (J.list J.nat))
     | "build" => m := m.buildSpline
     | "copy" => pure ()
@@ -188,13 +193,20 @@ def opEdit : J.Op := fun j => do
       let qchr ← J.field o "qchr" (J.list J.int)
       let qphy ← J.field o "qphy" (J.list J.rat)
       let tags ← J.field o "tags" (J.list J.int)
-      -- `copies_meta` = what the implementation was observed to do: hand the parent's metadata to the new
-      -- object (the code as is) or leave it ungrouped (the proposed repair); both are modelled
-      let asIs ← J.fieldD o "copies_meta" J.bool true
-      match (if asIs then m.interpGmap qchr qphy tags else m.interpGmapFixed qchr qphy tags) with
+      match m.interpGmap qchr qphy tags with
       | .error e => raised := .str (errStr e)
       | .ok none => J.fail "interp_gmap: no spline or a NaN position (outside the model)"
-      | .ok (some (d, _)) => m := d
+      | .ok (some (d, _)) =>
+        -- the derived positions are float results: where the implementation's double is within the float tolerance
+        -- of the model's exact value the history continues on THAT double (a tie of the exact values may be split
+        -- by an ulp in binary64, and `congruence` / `remove_discrepancies` of the derived map decide on the doubles)
+        let ig ← J.fieldOpt o "impl_gen" (J.list J.rat)
+        m := match ig with
+          | some gs =>
+            if gs.length == d.rows.length then
+              { d with rows := (d.rows.zip gs).map fun (r, g) => if closeR Tol.std r.gen g then { r with gen := g } else r }
+            else d
+          | none => d
     | "prune" =>
       -- positions are handed to the loop as the doubles python holds; the decisions are float decisions
       let g := m.ensureGrouped
@@ -300,23 +312,10 @@ def opSpecInterp : J.Op := fun j => do
   let self := (specInterp rows qchr qphy m m).1
   pure <| J.obj [("ok", J.ofBool ok), ("detail", J.ofStr msg), ("self", J.ofBool self)]
 
-/-- crossover-probability clause: ½ at each chromosome start, otherwise the map function of the
-    difference of consecutive *interpolated* positions (`genpos` must satisfy `specInterp`) -/
-def specXoprob (h : MapKind) (rows : List (Row Rat Int)) (qchr : List Int) (qphy : List Rat)
+/-- crossover-probability clause (`Spec.specXoprob`) instantiated at Float -/
+def specXoprobF (h : MapKind) (rows : List (Row Rat Int)) (qchr : List Int) (qphy : List Rat)
     (genpos : List (Option Rat)) (xoprob : List (GDist Rat)) : Bool × String :=
-  let n := qchr.length
-  if genpos.length != n || xoprob.length != n then (false, "shape") else
-  let (iok, imsg) := specInterp rows qchr qphy genpos genpos
-  let c (i : Nat) : Int := qchr.getD i 0
-  let g (i : Nat) : Option Rat := genpos.getD i none
-  let p (i : Nat) : GDist Rat := xoprob.getD i .nan
-  let starts := (List.range n).all fun i => !(i == 0 || c (i - 1) != c i) || p i == .fin (1 / 2)
-  let inner := (List.range n).all fun i => (i == 0 || c (i - 1) != c i) ||
-      (match g i, g (i - 1) with
-       | some a, some b => closeD Tol.std (p i) (f2d (mapF h (r2f a - r2f b)))
-       | _, _ => p i == .nan)
-  checks [("genpos interpolated: " ++ imsg, iok), ("one half at chromosome starts", starts),
-          ("map function of consecutive distances", inner)]
+  specXoprob r2f (mapF h) dF2R rows qchr qphy genpos xoprob
 
 def opSpecXoprob : J.Op := fun j => do
   let h ← fnOf j
@@ -325,9 +324,9 @@ def opSpecXoprob : J.Op := fun j => do
   let qphy ← J.field j "qphy" (J.list J.rat)
   let genpos ← J.field j "genpos" (J.list pos)
   let xoprob ← J.field j "xoprob" (J.list dist)
-  let (ok, msg) := specXoprob h rows qchr qphy genpos xoprob
+  let (ok, msg) := specXoprobF h rows qchr qphy genpos xoprob
   let (g, xo) := interpXoprob r2f (mapF h) rows qchr qphy
-  let self := (specXoprob h rows qchr qphy g (xo.map dF2R)).1
+  let self := (specXoprobF h rows qchr qphy g (xo.map dF2R)).1
   pure <| J.obj [("ok", J.ofBool ok), ("detail", J.ofStr msg), ("self", J.ofBool self)]
 
 def ops : List (String × J.Op) :=
